@@ -59,3 +59,158 @@ Definition skip_rest (s : bstream) : bstream :=
 Definition body_of (s : bstream) : bs := pre s ++ firstn (clen s - length (pre s)) (wire s).
 
 Definition show_rerror (e : rerror) : bs := match e with RNil => B "" | REOF => B "<EOF>" | RErr => B "<ERR>" end.
+
+(* ---------- chunked streams (contentLength = -1): Read and skipRest over the chunk framing ---------- *)
+Require Import Res Chunk.
+
+Record cstream := { cleft : N; ceof : bool; cwire : bs }.
+
+(* the trailer section after the last chunk: field lines up to the empty line *)
+Fixpoint skip_trailer (fuel : nat) (s : bs) : option bs :=
+  match fuel with
+  | O => None
+  | S f =>
+      match s with
+      | c1 :: c2 :: r => if Byte.eqb c1 CR && Byte.eqb c2 LF then Some r
+                         else match index_byte LF s with
+                              | Some i => skip_trailer f (skipn (S i) s)
+                              | None => None
+                              end
+      | _ => None
+      end
+  end.
+
+Definition take_crlf (s : bs) : option bs :=
+  match s with c1 :: c2 :: r => if Byte.eqb c1 CR && Byte.eqb c2 LF then Some r else None | _ => None end.
+
+(* one Read(p) with len(p) = k > 0, everything it needs already on the wire or missing for good *)
+Definition cs_read (k : nat) (s : cstream) : bs * rerror * cstream :=
+  if ceof s then ([], REOF, s)
+  else
+    let start : option (N * bs) :=
+      if N.eqb (cleft s) 0 then parse_chunk_size (cwire s) else Some (cleft s, cwire s) in
+    match start with
+    | None => ([], RErr, s)
+    | Some (n, w) =>
+        if N.eqb n 0 then
+          match skip_trailer (S (length w)) w with
+          | Some rest => ([], REOF, {| cleft := 0; ceof := true; cwire := rest |})
+          | None => ([], RErr, {| cleft := 0; ceof := false; cwire := w |})
+          end
+        else
+          let want := if N.ltb (N.of_nat k) n then k else N.to_nat n in
+          let got := firstn want w in
+          let w' := skipn want w in
+          let left' := (n - N.of_nat (length got))%N in
+          if Nat.ltb (length got) want then (got, RErr, {| cleft := left'; ceof := false; cwire := w' |})
+          else if N.eqb left' 0 then
+            match take_crlf w' with
+            | Some w'' => (got, RNil, {| cleft := 0; ceof := false; cwire := w'' |})
+            | None => (got, RErr, {| cleft := 0; ceof := false; cwire := w' |})
+            end
+          else (got, RNil, {| cleft := left'; ceof := false; cwire := w' |})
+    end.
+
+Fixpoint crun_reads (prog : list nat) (s : cstream) : bs * bool * cstream :=
+  match prog with
+  | [] => ([], false, s)
+  | k :: rest =>
+      match k with
+      | O => crun_reads rest s
+      | _ => let '(b, e, s1) := cs_read k s in
+             match e with
+             | RNil => let '(b2, eof, s2) := crun_reads rest s1 in (b ++ b2, eof, s2)
+             | REOF => (b, true, s1)
+             | RErr => (b, false, s1)
+             end
+      end
+  end.
+
+(* skipRest for a chunked stream: the rest of the current chunk, then whole chunks, then the trailer *)
+Fixpoint cskip_rest (fuel : nat) (s : cstream) : option cstream :=
+  match fuel with
+  | O => None
+  | S f =>
+      if ceof s then Some s
+      else
+        let start : option (N * bs) :=
+          if N.eqb (cleft s) 0 then parse_chunk_size (cwire s) else Some (cleft s, cwire s) in
+        match start with
+        | None => None
+        | Some (n, w) =>
+            if N.eqb n 0 then
+              match skip_trailer (S (length w)) w with
+              | Some rest => Some {| cleft := 0; ceof := true; cwire := rest |}
+              | None => None
+              end
+            else if N.ltb (N.of_nat (length w)) n then None
+            else match take_crlf (skipn (N.to_nat n) w) with
+                 | Some w' => cskip_rest f {| cleft := 0; ceof := false; cwire := w' |}
+                 | None => None
+                 end
+        end
+  end.
+
+Definition cfresh (w : bs) : cstream := {| cleft := 0; ceof := false; cwire := w |}.
+
+(* ---------- rendering for the correspondence check: ReadFull-style steps ---------- *)
+Fixpoint parse_steps (s : bs) (cur : bs) : list nat :=
+  match s with
+  | [] => match cur with [] => [] | _ => [parse_nat (rev cur)] end
+  | c :: r => if Byte.eqb c ","%byte then parse_nat (rev cur) :: parse_steps r [] else parse_steps r (c :: cur)
+  end.
+
+(* a step asks for k bytes and keeps reading until it has them or the stream ends (io.ReadFull) *)
+Fixpoint fixed_steps (steps : list nat) (s : bstream) : list bs * bstream :=
+  match steps with
+  | [] => ([], s)
+  | k :: r =>
+      let '(b, e, s1) := bs_read k (S (length (wire s))) s in
+      let line := hex_of b ++ show_rerror e in
+      match e with
+      | RErr => ([line], s1)
+      | _ => let '(ls, s2) := fixed_steps r s1 in (line :: ls, s2)
+      end
+  end.
+
+Fixpoint chunked_full (fuel k : nat) (s : cstream) : bs * rerror * cstream :=
+  match fuel with
+  | O => ([], RErr, s)
+  | S f =>
+      match k with
+      | O => ([], RNil, s)
+      | _ => let '(b, e, s1) := cs_read k s in
+             match e with
+             | RNil => let '(b2, e2, s2) := chunked_full f (k - length b) s1 in (b ++ b2, e2, s2)
+             | _ => (b, e, s1)
+             end
+      end
+  end.
+
+Fixpoint chunked_steps (steps : list nat) (s : cstream) : list bs * cstream :=
+  match steps with
+  | [] => ([], s)
+  | k :: r =>
+      let '(b, e, s1) := chunked_full (S k) k s in
+      let line := hex_of b ++ show_rerror e in
+      match e with
+      | RErr => ([line], s1)
+      | _ => let '(ls, s2) := chunked_steps r s1 in (line :: ls, s2)
+      end
+  end.
+
+(* stream_script "fixed" n prelen wire steps | "chunked" wire steps : one line per step, then what skipRest
+   leaves on the connection (first 24 bytes, hex) or "!" when it fails *)
+Definition stream_script (a : list bs) : bs :=
+  let mode := nth 0 a [] in
+  if bs_eqb mode (B "fixed") then
+    let n := parse_nat (nth 1 a []) in
+    let pl := parse_nat (nth 2 a []) in
+    let w := nth 3 a [] in
+    let '(ls, s) := fixed_steps (parse_steps (nth 4 a []) []) {| offset := 0; clen := n; pre := firstn pl w; wire := skipn pl w |} in
+    join (B ";") ls ++ B " | " ++ hex_of (firstn 24 (wire (skip_rest s)))
+  else
+    let w := nth 1 a [] in
+    let '(ls, s) := chunked_steps (parse_steps (nth 2 a []) []) (cfresh w) in
+    join (B ";") ls ++ B " | " ++
+    match cskip_rest (S (length w)) s with Some s' => hex_of (firstn 24 (cwire s')) | None => B "!" end.
